@@ -209,6 +209,15 @@ pub trait Prop {
     fn result_tag(&self, _line: &str, result: &str) -> Option<String> {
         Some(result.split(' ').next().unwrap_or("").to_string())
     }
+    /// optional (concurrency properties): what the implementation was OBSERVED to do while running
+    /// the last op, when that is schedule-dependent (e.g. the canonicalised event trace of a racy
+    /// run).  Called once right after `run`.  `Some(t)` makes the framework record the op as
+    /// `<line without obs= words> obs=<t>` in ops.txt / spec.in, so the model driver can check
+    /// that the observed trace is a run of the model.  `t` must contain no whitespace.  On replay
+    /// the op is re-executed and a recorded `obs=` word is replaced by the fresh observation.
+    fn observed(&mut self, _line: &str) -> Option<String> {
+        None
+    }
 }
 
 fn hash64<T: Hash>(t: &T) -> u64 {
@@ -355,6 +364,13 @@ pub fn main_for(mut p: impl Prop) {
             writeln!(plog, "{i}\t{line}\t{res}").unwrap();
             res = "panic".to_string();
         }
+        let observed_line: Option<String> = p.observed(line).map(|t| {
+            let mut ws: Vec<&str> = line.split(' ').filter(|w| !w.is_empty() && !w.starts_with("obs=")).collect();
+            let o = format!("obs={}", t.replace([' ', '\n', '\t', '\r'], "_"));
+            ws.push(&o);
+            ws.join(" ")
+        });
+        let line: &String = observed_line.as_ref().unwrap_or(line);
         writeln!(ops, "{line}").unwrap();
         writeln!(imp, "{res}").unwrap();
         writeln!(spc, "{line}\t=>\t{res}").unwrap();
